@@ -362,17 +362,27 @@ func vfC14Run(c vfC14Case, ctx *vfCtx) *vfViolation {
 					return vfFail("op %d: id %d: code[%d]=%d outside [0,%d)", i, op.ID, m, code[m], ksub)
 				}
 				sub := target[m*c.Dsub : (m+1)*c.Dsub]
-				d2 := func(k int) float64 {
-					var s float64
+				// squared distance to codeword k and the error a float32 evaluation may carry: every
+				// difference is formed from float32 values of magnitude mag (stored value, coarse
+				// centroid, codeword), so it is off by up to ~2^-22*mag regardless of how small it is
+				d2 := func(k int) (float64, float64) {
+					var s, tol float64
 					for j := range sub {
-						diff := sub[j] - float64(vw.Codebooks[m][k*c.Dsub+j])
+						cw := float64(vw.Codebooks[m][k*c.Dsub+j])
+						diff := sub[j] - cw
+						mag := math.Abs(float64(st[m*c.Dsub+j])) + math.Abs(cw)
+						if ivIdx != nil {
+							mag += math.Abs(float64(vw.Centroids[vw.ListOf[op.ID]][m*c.Dsub+j]))
+						}
+						e := 4 * vfEps32 * mag
 						s += diff * diff
+						tol += 2*math.Abs(diff)*e + e*e
 					}
-					return s
+					return s, tol + 4*float64(c.Dsub)*vfEps32*s + 1e-30
 				}
-				own := d2(code[m])
+				own, ownTol := d2(code[m])
 				for k := 0; k < ksub; k++ {
-					if o := d2(k); o < own-8*float64(c.Dsub+4)*vfEps32*(own+o)-1e-30 {
+					if o, oTol := d2(k); o+oTol < own-ownTol {
 						return vfFail("op %d: id %d subspace %d: stored code %d is at squared distance %v but codeword %d is nearer (%v) — not the nearest codeword (nbits=%d)", i, op.ID, m, code[m], own, k, o, c.NBits)
 					}
 				}
